@@ -400,14 +400,15 @@ def make_collection(s, docs, how, allow_incomplete, tmpdir=None, names=None):
     try:
         if how == 'strings':
             return mcmod.MosCollection.from_strings(list(docs), **kwargs), None
-        if how == 'files':
+        if how in ('files', 'files-mixed'):
             paths = []
             for k, d in enumerate(docs):
                 p = os.path.join(tmpdir, (names[k] if names else 'f%03d.mos.xml' % k))
                 os.makedirs(os.path.dirname(p), exist_ok=True)      # names may put files in directories of their own
                 with open(p, 'w', encoding='utf-8') as f:
                     f.write(d)
-                paths.append(p)
+                # files-mixed: every other path is given relative to the working directory
+                paths.append(os.path.relpath(p) if (how == 'files-mixed' and k % 2) else p)
             return mcmod.MosCollection.from_files(paths, **kwargs), None
         if how == 's3':
             f3 = ensure_fake_s3()
